@@ -124,11 +124,14 @@ func (s *Server) ServeQUICConn(conn *vquic.Conn) error {
 func (s *Server) handleRequestStream(conn *vquic.Conn, str *vquic.Stream) {
 	ex, _ := str.Other().Meta.(*exchange)
 	if ex == nil {
-		// not an HTTP request: a plain HTTP/3 server resets/ignores it; nothing of the
-		// application is involved
+		// Not an HTTP request: quic-go/http3 runs its ordinary request parser on the stream
+		// (server_conn.go handleRequestStream + frames.go ParseNext): unknown frame types are
+		// skipped using their length field, a first frame that is not HEADERS closes the whole
+		// CONNECTION with H3_FRAME_UNEXPECTED, a parse error / EOF resets the stream with
+		// H3_REQUEST_INCOMPLETE, and incomplete bytes on an open stream block. Nothing of the
+		// application is involved.
 		s.Declined++
-		str.CancelRead(vquic.StreamErrorCode(ErrCodeRequestIncomplete))
-		str.CancelWrite(vquic.StreamErrorCode(ErrCodeRequestIncomplete))
+		s.parseAsHTTP3(conn, str)
 		return
 	}
 	s.Served++
@@ -218,4 +221,85 @@ func DoRaw(conn *vquic.Conn, req *http.Request) (*Response, error) {
 		return nil, conn.CloseErr()
 	}
 	return ex.resp, nil
+}
+
+func readVarint(str *vquic.Stream) (uint64, error) {
+	var b [8]byte
+	if _, err := io.ReadFull(str, b[:1]); err != nil {
+		return 0, err
+	}
+	n := 1 << (b[0] >> 6)
+	if n > 1 {
+		if _, err := io.ReadFull(str, b[1:n]); err != nil {
+			return 0, err
+		}
+	}
+	v := uint64(b[0] & 0x3f)
+	for i := 1; i < n; i++ {
+		v = v<<8 | uint64(b[i])
+	}
+	return v, nil
+}
+
+func (s *Server) parseAsHTTP3(conn *vquic.Conn, str *vquic.Stream) {
+	reset := func() {
+		str.CancelRead(vquic.StreamErrorCode(ErrCodeRequestIncomplete))
+		str.CancelWrite(vquic.StreamErrorCode(ErrCodeRequestIncomplete))
+	}
+	skip := func(l uint64) error {
+		buf := make([]byte, 512)
+		for l > 0 {
+			n := uint64(len(buf))
+			if l < n {
+				n = l
+			}
+			m, err := str.Read(buf[:n])
+			l -= uint64(m)
+			if err != nil && l > 0 {
+				return err
+			}
+		}
+		return nil
+	}
+	for {
+		t, err := readVarint(str)
+		if err != nil {
+			reset()
+			return
+		}
+		l, err := readVarint(str)
+		if err != nil {
+			reset()
+			return
+		}
+		switch t {
+		case 0x0: // DATA first: not a HEADERS frame
+			_ = conn.CloseWithError(vquic.ApplicationErrorCode(ErrCodeFrameUnexpected), "expected first frame to be a HEADERS frame")
+			return
+		case 0x1: // HEADERS with bytes that are not a QPACK block the fake could decode
+			if err := skip(l); err != nil {
+				reset()
+				return
+			}
+			str.CancelRead(vquic.StreamErrorCode(rhttp3.ErrCodeMessageError))
+			str.CancelWrite(vquic.StreamErrorCode(rhttp3.ErrCodeMessageError))
+			return
+		case 0x4, 0x7: // SETTINGS / GOAWAY are parsed, then rejected as "not HEADERS"
+			if err := skip(l); err != nil {
+				reset()
+				return
+			}
+			_ = conn.CloseWithError(vquic.ApplicationErrorCode(ErrCodeFrameUnexpected), "expected first frame to be a HEADERS frame")
+			return
+		case 0x2, 0x6, 0x8, 0x9: // reserved
+			_ = conn.CloseWithError(vquic.ApplicationErrorCode(ErrCodeFrameUnexpected), "")
+			reset()
+			return
+		default: // unknown (0x401 included) and unsupported types: skipped
+			if err := skip(l); err != nil {
+				reset()
+				return
+			}
+		}
+	}
 }
